@@ -173,14 +173,20 @@ def num_cases(seed, n):
     return cases
 
 
+# every binary operator of the language (generators draw from the whole table)
+ALL_BINOPS = ["+", "-", "*", "/", "**", "==", "!=", "<", ">", "<=", ">=", "in", "not in"]
+
+
 # ------------------------------------------------------------------ probes (C09)
 def probe_shapes(r, d, counter):
     def leaf():
+        if r.random() < 0.15:
+            return r.choice(['True', 'False', 'None', '0', '1', '""', '"s"', '[]', '2.5'])
         counter[0] += 1
         return f'probe({counter[0]})'
     if d <= 0 or r.random() < 0.25:
         return leaf()
-    k = r.randrange(14)
+    k = r.randrange(19)
     E = lambda: probe_shapes(r, d - 1, counter)
     if k == 0:
         return f'({E()} and {E()})'
@@ -189,7 +195,7 @@ def probe_shapes(r, d, counter):
     if k == 2:
         return f'({E()} if {E()} else {E()})'
     if k == 3:
-        return f'({E()} {r.choice(["+", "-", "*", "==", "<", "in"])} {E()})'
+        return f'({E()} {r.choice(ALL_BINOPS)} {E()})'
     if k == 4:
         return f'[{E()}, {E()}, {E()}]'
     if k == 5:
@@ -206,6 +212,18 @@ def probe_shapes(r, d, counter):
         return f'get({{"1": {E()}}}, {E()}, {E()})'
     if k == 11:
         return f'(-{E()})'
+    if k == 12:
+        return f'[{E()}, {E()}][{E()}]'
+    if k == 13:
+        return f'{E()} | {r.choice(["str", "list", "min", "max"])}({E()})'
+    if k == 14:
+        return f'({E()}).{r.choice(["list", "min", "max", "get"])}({E()})'
+    if k == 15:
+        return f'[{E()}, {E()}, {E()}][{E()}:{E()}:{E()}]'
+    if k == 16:
+        return f'(w => [w, {E()}])({E()})' if False else f'apply((w, z) => [{E()}, w, z], {E()}, {E()})'
+    if k == 17:
+        return f'{r.choice(["min", "max", "round", "replace", "get"])}({E()}, {E()}, {E()})'
     return leaf()
 
 
@@ -288,9 +306,65 @@ def scope_cases(seed, n):
                 9: f'f = {nm} => ([] if {nm} < 1 else [f({nm} - 1), {nm}, try_apply(f, {nm} - 2), {nm}]); r = f(3)',
                 10: f'f = ({nm}, acc) => (acc if {nm} < 1 else [f({nm} - 1, acc), {nm}]); r = map([1, 2], w => f(w, 0))'}[k]
         stmts.append(call)
+        if r.random() < 0.35:
+            # the same call site evaluated before and after the callee's name is rebound (top level, host-level, or by a
+            # parameter): name resolution happens at every evaluation of the call
+            fn = r.choice(['len', 'str', 'sum', 'abs', 'list', 'min', 'sorted', 'keys'])
+            arg = r.choice(['[1, 2]', '[3]', '"ab"', '[-4, 2]'])
+            rebind = r.choice([f'{fn} = q => 99', f'{fn} = q => [q, q]', f'{fn} = str', f'{fn} = 5'])
+            stmts += [f'cs = w => try_apply({fn}, {arg})', 'r1 = cs(0)', rebind, 'r2 = cs(0)',
+                      f'r3 = apply({fn} => cs(0), len)', f'r4 = map([1, 2], w => try_apply(v => {fn}({arg}), 0))',
+                      f'cs2 = w => try_apply(v => {fn}({arg}), 0)', 'r5 = [cs2(0), cs2(0)]',
+                      f'r6 = apply({fn} => cs2(0), q => "param")', 'r7 = cs2(0)']
+            stmts.append('[r1, r2, r3, r4, r5, r6, r7]')
         stmts.append(r.choice([nm, f'[{nm}, r]', 'r', f'try_apply(w => {nm}, 0)', f'try_apply(w => loc, 0)', 'try_apply(w => p, 0)']))
         src = '\n'.join(stmts)
         cases.append((eval_line(src, ent, astfns=astfns), src + ' || af: ' + abody.replace('\n', ' ; ')))
+    return cases
+
+
+# ------------------------------------------------------------------ higher-order lambdas (C07, C10)
+def closure_cases(seed, n):
+    """lambdas that build, return, store and receive lambdas; parameters and globals sharing names; calls made after the
+    creating call has returned and after globals were rebound (dynamic scoping: a free name is whatever is bound WHEN the
+    body runs)"""
+    cases = []
+    NAMES = ['a', 'b', 'c']
+    for i in range(n):
+        r = random.Random(f'{seed}/closure/{i}')
+
+        def arith(d):
+            if d <= 0 or r.random() < 0.3:
+                return r.choice(NAMES + ['1', '2', '10'])
+            return f'({arith(d - 1)} {r.choice(["+", "-", "*"])} {arith(d - 1)})'
+
+        def lam(d):
+            ps = r.sample(NAMES, r.choice([1, 1, 2]))
+            if d > 0 and r.random() < 0.6:
+                body = lam(d - 1)
+            else:
+                k = r.randrange(5)
+                body = {0: arith(2), 1: f'[{arith(1)}, {arith(1)}]', 2: f'fn({arith(1)})', 3: f'apply(fn, {arith(1)})',
+                        4: f'map([1, 2], {r.choice(NAMES)} => {arith(2)})'}[k]
+            return f'({", ".join(ps)}) => {body}' if len(ps) > 1 else f'{ps[0]} => {body}'
+
+        stmts = []
+        for nm in NAMES:
+            if r.random() < 0.5:
+                stmts.append(f'{nm} = {r.choice([1, 5, 100])}')
+        stmts.append(f'fn = {lam(r.choice([0, 0, 1]))}')
+        stmts.append(f'mk = {lam(r.choice([1, 1, 2]))}')
+        stmts.append(f'g = try_apply(mk, {r.choice([1, 2, 7])}, {r.choice([3, 4])})' if r.random() < 0.5 else f'g = try_apply(mk, {r.choice([1, 2, 7])})')
+        for nm in r.sample(NAMES, r.choice([0, 1, 2])):
+            stmts.append(f'{nm} = {r.choice([1000, 2000, 3000])}')
+        k = r.randrange(6)
+        use = {0: 'r1 = try_apply(g, 2)', 1: 'r1 = try_apply(g, 2, 3)', 2: 'h = (f, a) => f(a + 1); r1 = try_apply(h, g, 20)',
+               3: 'h = (f, b) => map([1, 2], f); r1 = try_apply(h, g, 20)', 4: 'r1 = try_apply(w => g(2)(3), 0)',
+               5: 'h = (a, f) => [a, f(a)]; r1 = try_apply(h, 50, g)'}[k]
+        stmts.append(use)
+        stmts.append('[try_apply(w => r1, 0), ' + ', '.join(f'try_apply(w => {nm}, 0)' for nm in NAMES) + ']')
+        src = '\n'.join(stmts)
+        cases.append((eval_line(src, '', hostfns=True), src))
     return cases
 
 
@@ -305,9 +379,12 @@ def alias_cases(seed, n):
         hv = r.choice(['(L 1 (L 2 I:1 I:2) (R 2) D:0:3:0:c)', '(M 1 (S:6b (L 2 I:1)) (S:6a (R 2)))', '(L 1 I:1 I:2 I:3)',
                        '(L 1 (M 2 (S:6b (L 3))) (L 4 I:1))', he.lnum(), he.dict_()])
         ent = f'(S:{hx("h")} {hv})'
-        form = r.randrange(6)
-        form = r.randrange(10)
-        src0 = {0: 'x = h', 1: 'c = [0, 0]; c[0] = h; x = c[0]', 2: 'x = [h, h]', 3: 'd = {}; d["k"] = h; x = d["k"]',
+        form = r.randrange(26)
+        src0 = {10: 'x = h or []', 11: 'x = [] or h', 12: 'x = h and h', 13: 'x = (h if True else 0)', 14: 'x = h + [[0]]',
+                15: 'x = [h, 1][0]', 16: 'x = {"k": h}["k"]', 17: 'x = apply(v => v, h)', 18: 'x = get({"k": h}, "k")', 19: 'x = h[0:2]',
+                20: 'x = reversed(h)', 21: 'x = sorted(h, v => 0)', 22: 'x = 0; x = x or h', 23: 'c = {}; c["k"] = h or []; x = c["k"]',
+                24: 'c = [0]; c[0] = h + []; x = c[0]', 25: 'x = [0]; x[0] = h and h; x = x[0]',
+                0: 'x = h', 1: 'c = [0, 0]; c[0] = h; x = c[0]', 2: 'x = [h, h]', 3: 'd = {}; d["k"] = h; x = d["k"]',
                 4: 'x = [1]; x += h', 5: 'c = [[1]]; c[0] += h; x = c[0]',
                 6: 'x = h; y = h; try_apply(w => y.push(5), 0); try_apply(w => y[0].push(6), 0)',
                 7: 'y = h; x = h[0]; try_apply(w => y[0].push(6), 0)', 8: 'x = h; acc = [0]; acc += h; try_apply(w => acc[1].push(8), 0)',
@@ -375,8 +452,14 @@ def rand_cases(seed, n):
         a = r.choice([0, 1, -5, 10, 10 ** 30, -3, 7])
         b = a + r.choice([0, 0, 1, 2, 5, 100, 10 ** 20])
         fa = lambda x: r.choice([str(x) if x >= 0 else f'(-{-x})', f'ha'])
-        k = r.randrange(6)
-        if k <= 1:
+        k = r.randrange(7)
+        if k == 6:
+            # integer-valued bounds in every spelling a program can produce: trailing zeros, products, quotients, sums
+            lo, hi = r.choice([(1, 6), (0, 3), (2, 2), (-2, 4), (10, 20)])
+            sp = lambda n: r.choice([f'{n}.0', f'{n}.00', f'({n * 2} / 2)', f'({n} * 1.0)', f'({n} + 0.5 - 0.5)', f'int({n}.7 - 0.7)',
+                                     f'({n}.5 * 2 - {n})', f'len([1, 2]) * {n} / 2', f'{n}']) if n >= 0 else r.choice([f'(-{-n}.0)', f'(0 - {-n})', f'(-{-n})'])
+            src = f'[rand({sp(lo)}, {sp(hi)}), rand(hz, {sp(hi)})]'
+        elif k <= 1:
             src = f'rand({a if a >= 0 else "(-" + str(-a) + ")"}, {b if b >= 0 else "(-" + str(-b) + ")"})'
         elif k == 2:
             src = 'rand(ha, hb)'
@@ -389,7 +472,7 @@ def rand_cases(seed, n):
                             'shuffle(hl) | push(1); [hl, shuffle([]), shuffle([5])]'])
         else:
             src = 's = shuffle(hl); [s, hl]'
-        ent = f'(S:{hx("ha")} I:{a}) (S:{hx("hb")} {r.choice(["I:" + str(b), dec_atom(str(b)) if b >= 0 else "I:" + str(b)])}) ' \
+        ent = f'(S:{hx("hz")} {r.choice(["D:0:200:-2:b", "D:0:20:-1:c", "D:0:0:0:b", "I:0"])}) (S:{hx("ha")} I:{a}) (S:{hx("hb")} {r.choice(["I:" + str(b), dec_atom(str(b)) if b >= 0 else "I:" + str(b)])}) ' \
               f'(S:{hx("hl")} (L 1' + ''.join(f' I:{j}' for j in range(r.choice([0, 1, 1, 2, 3, 5, 8]))) + '))'
         cases.append((eval_line(src, ent, rng=r.randrange(1, 2 ** 40), hostfns=False), src))
     return cases
